@@ -2,40 +2,9 @@
    each run) is syntactically equal to the hand-written parametric model (ArithModel.v), and the exported
    family is exactly the expected one.  Kernel-checked by computation. *)
 From Coq Require Import ZArith Bool List String Lia.
-From Verif Require Import Base.Word256 C03.LIR C03.ArithSpec C03.ArithModel C03.GenLegacy.
+From Verif Require Import Base.Word256 C03.LIR C03.ArithSpec C03.ArithModel C03.TieBase C03.GenLegacy.
 Import ListNotations.
 Open Scope Z_scope.
-
-Lemma op2_eqb_eq a b : op2_eqb a b = true -> a = b.
-Proof. destruct a, b; try reflexivity; intros H; discriminate H. Qed.
-Lemma op1_eqb_eq a b : op1_eqb a b = true -> a = b.
-Proof. destruct a, b; try reflexivity; intros H; discriminate H. Qed.
-Lemma op3_eqb_eq a b : op3_eqb a b = true -> a = b.
-Proof. destruct a, b; try reflexivity; intros H; discriminate H. Qed.
-
-Lemma lir_eqb_eq s : forall t, lir_eqb s t = true -> s = t.
-Proof.
-  induction s; destruct t; cbn [lir_eqb]; intros H; try discriminate H;
-    repeat match goal with H : _ && _ = true |- _ => apply andb_true_iff in H; destruct H end.
-  - f_equal. apply Z.eqb_eq. assumption.
-  - f_equal. apply String.eqb_eq. assumption.
-  - f_equal; [apply op1_eqb_eq | apply IHs]; assumption.
-  - f_equal; [apply op2_eqb_eq | apply IHs1 | apply IHs2]; assumption.
-  - f_equal; [apply op3_eqb_eq | apply IHs1 | apply IHs2 | apply IHs3]; assumption.
-  - f_equal; [apply String.eqb_eq | apply IHs1 | apply IHs2]; assumption.
-  - f_equal; [apply IHs1 | apply IHs2]; assumption.
-  - reflexivity.
-  - f_equal. apply IHs. assumption.
-  - f_equal; [apply IHs1 | apply IHs2 | apply IHs3]; assumption.
-Qed.
-
-Definition ty_okb (T : nty) : bool :=
-  (1 <=? nbytes T) && (nbytes T <=? 32) && (if ndec T then (nbytes T =? 21) && nsigned T else true).
-Lemma ty_okb_ok T : ty_okb T = true -> ty_ok T.
-Proof.
-  unfold ty_okb, ty_ok. intros H. apply andb_true_iff in H. destruct H as [H1 H2].
-  split; [lia|]. intros D. rewrite D in H2. apply andb_true_iff in H2. destruct H2. split; [lia | assumption].
-Qed.
 
 Definition model (op : aop) (T : nty) : option lir :=
   match op with
